@@ -1156,6 +1156,13 @@ func verifyGitObjectAndAttestations(ctx context.Context, policy *State, target s
 
 	if options.trustedVerifier != "" {
 		for _, verifier := range verifiers {
+			if verifier.verifyExhaustively {
+				// The exhaustive verifier is part of every path's verifiers
+				// when a global rule exists and expresses no rule itself:
+				// having been "verified using" it for an unprotected path
+				// says nothing about the rules that protect this path.
+				continue
+			}
 			if verifier.Name() == options.trustedVerifier {
 				return options.trustedVerifier, false, nil
 			}
